@@ -20,6 +20,7 @@ fn main() {
         "C13" => vh::c13::main(mode),
         "C15" => vh::c15::main(mode),
         "C05" => vh::c05::main(mode),
+        "C18" => vh::c18::main(mode),
         _ => {
             eprintln!("unknown property {id}");
             2
